@@ -128,6 +128,11 @@ pub struct TransientSource<T> {
     /// registered with the poller. The state alone cannot tell: a source that asked to be
     /// disabled stays in the `Disable` state after it has been unregistered.
     registered: bool,
+    /// How many sub-tokens the held source took at its last registration. They stay reserved
+    /// while the wrapper is empty or its source disabled: sub-sources registered after this one
+    /// by the same parent keep their tokens, so an event already collected for one of them is
+    /// not handed to its neighbour.
+    reserved: u16,
 }
 
 /// This is the internal state of the [`TransientSource`], as a separate type so
@@ -191,6 +196,13 @@ impl<T> TransientSourceState<T> {
 }
 
 impl<T> TransientSource<T> {
+    /// Take the sub-tokens the last held source used out of the factory without using them.
+    fn skip_reserved(&self, token_factory: &mut crate::TokenFactory) {
+        for _ in 0..self.reserved {
+            token_factory.token();
+        }
+    }
+
     /// Apply a function to the enclosed source, if it exists and is not about
     /// to be removed.
     pub fn map<F, U>(&mut self, f: F) -> Option<U>
@@ -243,6 +255,7 @@ impl<T: crate::EventSource> From<T> for TransientSource<T> {
         Self {
             state: TransientSourceState::Register(source),
             registered: false,
+            reserved: 0,
         }
     }
 }
@@ -305,21 +318,26 @@ impl<T: crate::EventSource> crate::EventSource for TransientSource<T> {
     ) -> crate::Result<()> {
         match &mut self.state {
             TransientSourceState::Keep(source) => {
+                let first = token_factory.next_sub_id();
                 source.register(poll, token_factory)?;
                 self.registered = true;
+                self.reserved = token_factory.next_sub_id() - first;
             }
             TransientSourceState::Register(source)
             | TransientSourceState::Disable(source)
             | TransientSourceState::Replace { new: source, .. } => {
+                let first = token_factory.next_sub_id();
                 source.register(poll, token_factory)?;
                 self.registered = true;
+                self.reserved = token_factory.next_sub_id() - first;
                 self.state.replace_state(TransientSourceState::Keep);
                 // Drops the disposed source in the Replace case.
             }
             TransientSourceState::Remove(_source) => {
                 self.state.replace_state(|_| TransientSourceState::None);
+                self.skip_reserved(token_factory);
             }
-            TransientSourceState::None => (),
+            TransientSourceState::None => self.skip_reserved(token_factory),
         }
         Ok(())
     }
@@ -330,10 +348,16 @@ impl<T: crate::EventSource> crate::EventSource for TransientSource<T> {
         token_factory: &mut crate::TokenFactory,
     ) -> crate::Result<()> {
         match &mut self.state {
-            TransientSourceState::Keep(source) => source.reregister(poll, token_factory)?,
+            TransientSourceState::Keep(source) => {
+                let first = token_factory.next_sub_id();
+                source.reregister(poll, token_factory)?;
+                self.reserved = token_factory.next_sub_id() - first;
+            }
             TransientSourceState::Register(source) => {
+                let first = token_factory.next_sub_id();
                 source.register(poll, token_factory)?;
                 self.registered = true;
+                self.reserved = token_factory.next_sub_id() - first;
                 self.state.replace_state(TransientSourceState::Keep);
             }
             TransientSourceState::Disable(source) => {
@@ -342,6 +366,7 @@ impl<T: crate::EventSource> crate::EventSource for TransientSource<T> {
                     source.unregister(poll)?;
                     self.registered = false;
                 }
+                self.skip_reserved(token_factory);
             }
             TransientSourceState::Remove(source) => {
                 if self.registered {
@@ -349,18 +374,21 @@ impl<T: crate::EventSource> crate::EventSource for TransientSource<T> {
                     self.registered = false;
                 }
                 self.state.replace_state(|_| TransientSourceState::None);
+                self.skip_reserved(token_factory);
             }
             TransientSourceState::Replace { new, old } => {
                 if self.registered {
                     old.unregister(poll)?;
                     self.registered = false;
                 }
+                let first = token_factory.next_sub_id();
                 new.register(poll, token_factory)?;
                 self.registered = true;
+                self.reserved = token_factory.next_sub_id() - first;
                 self.state.replace_state(TransientSourceState::Keep);
                 // Drops 'dispose'.
             }
-            TransientSourceState::None => (),
+            TransientSourceState::None => self.skip_reserved(token_factory),
         }
         Ok(())
     }
